@@ -7,6 +7,7 @@ import (
 	"os"
 	"path/filepath"
 	"strconv"
+	"strings"
 	"sync"
 	"time"
 	"unsafe"
@@ -263,6 +264,26 @@ func (f *TimeBucketInfo) SetElementTypes(newTypes []EnumElementType) error {
 		return fmt.Errorf("element count not equal")
 	}
 	copy(f.elementTypes, newTypes)
+	return nil
+}
+
+// ValidateSchema returns an error unless the element names of f can be written to the file header and
+// read back unchanged: the header has room for maxNumElements elements and elementNameHeaderBytes bytes
+// per element name, and NUL bytes are used as padding of the name field.
+func (f *TimeBucketInfo) ValidateSchema() error {
+	names := f.GetElementNames()
+	if len(names) > maxNumElements {
+		return fmt.Errorf("too many columns: %d (at most %d can be stored)", len(names), maxNumElements)
+	}
+	for _, name := range names {
+		if len(name) > elementNameHeaderBytes {
+			return fmt.Errorf("column name %q is too long: %d bytes (at most %d can be stored)",
+				name, len(name), elementNameHeaderBytes)
+		}
+		if strings.IndexByte(name, 0) >= 0 {
+			return fmt.Errorf("column name %q contains a NUL byte", name)
+		}
+	}
 	return nil
 }
 
